@@ -278,6 +278,12 @@ def run_controlled(ctx, props, quick=120, thorough=4000):
             spec['rules'] = [{'type': 'reach', 'enc': rng.randrange(len(spec['elems']) + 1),
                               'target': gen.in_unit(rng, 'AngularPosition', rng.uniform(-1, 3), True),
                               'brake': gen.in_unit(rng, 'Angle', rng.uniform(0.5, 6), True)}]
+            if rng.random() < 0.5:
+                # the target given as an Angle, beyond the braking angle
+                br = rng.uniform(0.3, 2)
+                spec['rules'] = [{'type': 'reach', 'enc': rng.randrange(len(spec['elems']) + 1), 'target_kind': 'Angle',
+                                  'target': gen.in_unit(rng, 'Angle', br + rng.uniform(0.1, 3), True),
+                                  'brake': gen.in_unit(rng, 'Angle', br, True)}]
         if not spec['rules'] and rng.random() < 0.7:
             # a controller without (applicable) rules still decides: the duty cycle becomes 1 whatever the motor carried
             spec['motor']['pwm0'] = rng.choice([0.0, -1.0, gen.dy(rng, -1, 1, 3)])
@@ -315,6 +321,35 @@ def run_controlled(ctx, props, quick=120, thorough=4000):
                         rules = [{'type': 'const', 'start': [0.0, 'sec'], 'dur': gen.time_qty(rng, 'TimeInterval', gen.dy(rng, 0.0625, total * dt / 2, 4), True),
                                   'value': rng.choice([0, -1, gen.dy(rng, -1, 1, 3)])}]
                     spec['rules'] = rules
+        specs.append(spec)
+    # the efficiency of a mating declared again between two simulations that re-use the same rule objects
+    from harness import sim_props as _sp
+    for _ in range(ctx.budget(12, 200)):
+        for _try in range(20):
+            spec = gen.gen_spec(rng, random_units=rng.random() < 0.7, sl_bias=0.0, currents=True, max_stages=2)
+            if _sp.redeclarable(spec):
+                break
+        else:
+            continue
+        dt = 2.0 ** -rng.randint(3, 6)
+        total = rng.randint(5, 10)
+        spec['load']['coef'] = [abs(spec['load']['coef'][0]) + 0.01, 0.0, 0.0, 0.0, 0.0]
+        n_el = len(spec['elems']) + 1
+        spec['init'].pop('pos_kind', None)
+        spec['init']['pos'] = spec['init']['pos'][:2]
+        spec['rules'] = [rng.choice([
+            {'type': 'reach', 'enc': rng.randrange(n_el), 'target': gen.in_unit(rng, 'AngularPosition', rng.uniform(0.5, 3), True),
+             'brake': gen.in_unit(rng, 'Angle', rng.uniform(2, 8), True)},
+            {'type': 'prop', 'enc': rng.randrange(n_el), 'target': gen.in_unit(rng, 'AngularPosition', rng.uniform(20, 80), True),
+             'mult': rng.uniform(1.1, 2), 'pmin': 0.2}])]
+        op, _, _ = gen.run_op(rng, dt_si=dt, steps=(total, total), unit='sec')
+        op2, _, _ = gen.run_op(rng, dt_si=dt, steps=(total, total), unit='sec')
+        spec['ops'] = [op, {'op': 'reset'}, {'op': 'init', 'pos': spec['init']['pos'], 'speed': spec['init']['speed']}, op2]
+        k = rng.choice(_sp.redeclarable(spec))
+        final = list(spec['rels'][k])
+        spec['rels'][k] = final[:3] + [rng.choice([1.0, 0.95, 0.4])]
+        final[3] = rng.choice([0.5, 0.7, 0.3])
+        spec['ops'].insert(3, {'op': 'redeclare', 'rel': final})
         specs.append(spec)
     for i in range(0, len(specs), 200):
         eval_controlled(ctx, specs[i:i + 200], props)
